@@ -402,6 +402,11 @@ func (fr *Frame) execInstr(b *ssa.BasicBlock, idx int, ins ssa.Instruction, st *
 	case *ssa.Field:
 		x := fr.val(ins.X)
 		so := u.S.sortOf(ins.X.Type())
+		if _, ov := sortOverrides[typeKey(types.Unalias(ins.X.Type()))]; ov {
+			// abstracted value type (big.Int): its embedded pointer stands for the value itself
+			fr.vals[ins] = &Val{T: ins.Type(), S: x.S}
+			break
+		}
 		fr.define(ins, app(u.S.selName(so, ins.Field), x.S))
 	case *ssa.IndexAddr:
 		x := fr.val(ins.X)
